@@ -18,6 +18,7 @@ A node is a dict
     renames    (from, thru|None) | None   level 66
     extra      list[str]          further clause tokens written verbatim (SYNC, BLANK WHEN ZERO ...)
     children   list[node]         88-levels of an elementary item are its children with level 88
+    is88       bool               level == 88 (set by node())
 
 Nothing here looks at the code under test.  The clean defaults avoid every known parser trap:
 names come from a pool without reserved-word prefixes, code stays inside columns 8-71, every
@@ -45,6 +46,7 @@ def node(level, name=None, **kw):
     n = dict(level=level, name=name, filler=False, pic=None, usage=None, occurs=None, odo=None, indexed_by=[],
              redefines=None, value=None, renames=None, extra=[], children=[])
     n.update(kw)
+    n["is88"] = n["level"] == 88
     return n
 
 
